@@ -1,6 +1,6 @@
 \* G (simulation): the whole definition language: every raw type, arrays, byte orders, order= keyword,
 \* nesting depth 2, struct / packed / union, typedefs, bitfield units, terminated / counted / bound /
-\* LEB128 members, both pointer sizes, five value classes. Run with -simulate num=N -depth 60.
+\* LEB128 members, both pointer sizes, three value classes (quick tier). Run with -simulate num=N -depth 60.
 CONSTANTS
   RawT = {"c", "b", "B", "s", "h", "H", "i", "I", "f", "l", "L", "P", "q", "Q", "d"}
   ArrN = {1, 2, 3}
@@ -15,7 +15,7 @@ CONSTANTS
   Feat = {"bits", "typedef", "nestarr", "var", "cnt", "bound", "leb"}
   BitSplits <- BitSplitsFull
   PS = {32, 64}
-  VCs = {"zero", "pat", "neg", "min", "max"}
+  VCs = {"zero", "pat", "neg"}
   Stride = 1
   Dev = {}
   Mode = "gen"
